@@ -754,6 +754,27 @@ def newSumAt (s : St) (j1 j2 : Nat) : Except Err St :=
           | .error e => .error e
           | .ok a1 => writeCells s1 a1.region (cells a1) (List.zipWith (· + ·) vb vc)
 
+/-- `Array(std::initializer_list<T> list) : data_(0), storage_(0), dimensions_(0) { *this = list; }` and its nested forms
+    (Array.h; one constructor per rank).  The new object is `empty()`, so `operator=(list)` resizes it to the shape of the list
+    (`resize(list.size())` / `shape_initializer_list_` + `resize(dims)`) and writes the list: a FRESH OWNER of `n0[*n1]` elements,
+    exactly what `Array(n0[,n1])` makes, holding the values of the list (`v0, v0+1, …` in canonical order).  Special matrices have
+    no such constructor; a list has no empty level here (`n0, n1 ≥ 1`). -/
+def newListAt (s : St) (k : Kind) (n0 n1 : Nat) (v0 : Int) : Except Err St :=
+  if ¬ k.isArray ∨ n0 = 0 ∨ (k = .mat ∧ n1 = 0) then .error .badOp
+  else newAt s k n0 (if k = .mat then n1 else 0) v0
+
+/-- `Array<1>::operator=(std::initializer_list<T> list)` with a list of `n` values `v0, v0+1, …`:
+    `if (empty()) resize(list.size()); else if (list.size() > dimensions_[0]) throw size_mismatch;`  then `*this = 0` and the
+    list is written in front.  An empty VIEW is `empty()` too: `resize` gives its link back first. -/
+def assignListAt (s : St) (i : Nat) (n : Nat) (v0 : Int) : Except Err St :=
+  match getObj s i with
+  | .error e => .error e
+  | .ok a =>
+    if ¬ a.kind.isVec ∨ n = 0 then .error .badOp
+    else if a.len = 0 then resizeAt s i false n 0 v0
+    else if a.len < n then .error .sizeMismatch
+    else writeCells s a.region (cells a) (iota n v0 ++ List.replicate (a.len - n) 0)
+
 /-- element `k` (canonical order) := v -/
 def writeAt (s : St) (i k : Nat) (v : Int) : Except Err St :=
   match getObj s i with
@@ -803,6 +824,8 @@ inductive Op
   | write (i k : Nat) (v : Int)
   | swap (i j : Nat)
   | newSum (j1 j2 : Nat)
+  | newList (k : Kind) (n0 n1 : Nat) (v0 : Int)      -- constructed from a (nested) initializer list
+  | assignList (i : Nat) (n : Nat) (v0 : Int)        -- a vector assigned an initializer list
   | failNext (k : Nat)        -- the environment: the k-th next data allocation will fail
 deriving Repr, DecidableEq
 
@@ -825,6 +848,8 @@ def stepCore (s : St) : Op → Except Err St
   | .write i k v => writeAt s i k v
   | .swap i j => swapAt s i j
   | .newSum j1 j2 => newSumAt s j1 j2
+  | .newList k n0 n1 v0 => newListAt s k n0 n1 v0
+  | .assignList i n v0 => assignListAt s i n v0
   | .failNext k => .ok { s with failIn := k }
 
 /-- one operation; `thrown` only describes the operation just run -/
